@@ -161,6 +161,110 @@ Proof.
   rewrite E. reflexivity.
 Qed.
 
+(* ---- what the incoming path does to last_sent_seq_nr ---- *)
+Lemma recv_loop_ls : forall fuel (s : vsock) acc,
+  stk (fun s s1 => v_last_sent_seq_nr s1 = v_last_sent_seq_nr s \/ SC s1) s (recv_loop cci fuel s acc).
+Proof.
+  assert (Hbase : forall (s : vsock) (acc : on_ack_result),
+    stk (fun s s1 => v_last_sent_seq_nr s1 = v_last_sent_seq_nr s \/ SC s1) s
+      (if v_inbox_closed s
+       then sbind (maybe_send_fin (transition_to_fin_wait_1 s))
+                  (fun s2 _ => SOk (set_state s2 Closed) (acc, true))
+       else SOk (set_inbox_waker s true) (acc, false))).
+  { intros s acc. destruct (v_inbox_closed s); [|cbn [stk]; left; reflexivity].
+    destruct (maybe_send_fin _) as [s2 b|s2 e|]; cbn [sbind stk]; auto. right. reflexivity. }
+  induction fuel as [|m0 fuel IH]; intros s acc; cbn [recv_loop];
+    destruct (v_inbox s) as [|m rest] eqn:Ei; try apply Hbase; try exact I.
+  pose proof (process_incoming_message_MQ cci (set_inbox s rest) m) as HM.
+  pose proof (process_incoming_message_G cci (set_inbox s rest) m) as HG.
+  destruct (process_incoming_message cci (set_inbox s rest) m) as [s1 r|s1 e|]; cbn [sbind stk sGr] in *; auto.
+  destruct HM as (_ & _ & _ & _ & M5). cbn [v_last_sent_seq_nr set_inbox] in M5.
+  destruct (_ || _); [cbn [stk]; left; exact M5|].
+  specialize (IH s1 (result_update acc r)).
+  destruct (recv_loop cci fuel s1 (result_update acc r)) as [s2 x|s2 e|]; cbn [stk] in *; auto.
+  destruct IH as [IH|IH]; [left; congruence|right; exact IH].
+Qed.
+
+Lemma pa_tail_ls (s1 : vsock) res :
+  stk (fun s1 s' => (v_last_sent_seq_nr s' = v_last_sent_seq_nr s1 \/
+                     v_last_sent_seq_nr s' = wsub16 (ss_snd_una (v_segs s')) 1) /\
+                    v_state s' = v_state s1 /\ v_opts s' = v_opts s1) s1 (pa_tail s1 res).
+Proof.
+  destruct res as [r early]. rewrite pa_tail_eq.
+  assert (H0 : v_last_sent_seq_nr (pa_reset r s1) = v_last_sent_seq_nr s1 /\
+               v_segs (pa_reset r s1) = v_segs s1 /\ v_state (pa_reset r s1) = v_state s1 /\
+               v_opts (pa_reset r s1) = v_opts s1).
+  { unfold pa_reset. destruct (_ || _); [|auto].
+    destruct (ss_segs _); [destruct (our_fin_if_unacked _)|]; unfold restart_remote_inactivity_timer; vsimpl_goal; auto. }
+  destruct H0 as (L0 & S0 & T0 & O0).
+  assert (H1 : stk (fun _ s3 => (v_last_sent_seq_nr s3 = v_last_sent_seq_nr s1 \/
+                                 v_last_sent_seq_nr s3 = wsub16 (ss_snd_una (v_segs s3)) 1) /\
+                                v_segs s3 = v_segs s1 /\ v_state s3 = v_state s1 /\ v_opts s3 = v_opts s1)
+                 (pa_reset r s1) (pa_trunc r (pa_reset r s1))).
+  { unfold pa_trunc. destruct (0 <? _); [|cbn [stk]; auto]. cbv zeta.
+    set (s2 := pa_reset r s1) in *.
+    assert (Ha : (v_last_sent_seq_nr (acked_counts_as_sent s2) = v_last_sent_seq_nr s1 \/
+                  v_last_sent_seq_nr (acked_counts_as_sent s2) = wsub16 (ss_snd_una (v_segs (acked_counts_as_sent s2))) 1) /\
+                 v_segs (acked_counts_as_sent s2) = v_segs s1 /\ v_state (acked_counts_as_sent s2) = v_state s1 /\
+                 v_opts (acked_counts_as_sent s2) = v_opts s1).
+    { unfold acked_counts_as_sent. destruct (seq_gt _ _ && seq_lt _ _); vsimpl_goal; auto. }
+    revert Ha. generalize (acked_counts_as_sent s2). intros s2' Ha.
+    destruct (truncate_front _ _) as [tx1 tr]. destruct tr; [|exact I].
+    destruct (wake_writer tx1) as [tx2 w]. cbn [stk]. unfold add_wakes. vsimpl_goal. exact Ha. }
+  destruct (pa_trunc r (pa_reset r s1)) as [s3 u3|s3 e|]; cbn [sbind stk] in *; auto.
+  destruct H1 as (L3 & S3 & T3 & O3).
+  unfold pa_pipe. destruct (rv_phase (v_recovery s3)); cbn [stk]; auto.
+  destruct (calc_pipe _ _ _ _ _) as [[[segs' pipe] recalc]|] eqn:Ec; [|exact I].
+  cbn [stk]. unfold set_recovering. vsimpl_goal.
+  destruct (VSock_PollAux.calc_pipe_ev _ _ _ _ _ _ _ _ Ec) as (_ & Eu & _).
+  rewrite Eu. auto.
+Qed.
+
+Lemma process_all_ls (s : vsock) :
+  stk (fun s s' => v_last_sent_seq_nr s' = v_last_sent_seq_nr s \/
+                   v_last_sent_seq_nr s' = wsub16 (ss_snd_una (v_segs s')) 1 \/ SC s')
+      s (process_all_incoming_messages cci s).
+Proof.
+  rewrite process_all_eq.
+  pose proof (recv_loop_ls (v_inbox s ++ [ {| m_hdr := outgoing_header s; m_payload := [] |} ]) s on_ack_result_default) as H1.
+  destruct (recv_loop cci _ s on_ack_result_default) as [s1 res|s1 e|]; cbn [sbind stk] in *; auto.
+  pose proof (pa_tail_ls s1 res) as H2.
+  destruct (pa_tail s1 res) as [s' u'|s' e|]; cbn [stk] in *; auto.
+  destruct H2 as (L & T & O). destruct H1 as [H1|H1].
+  - destruct L as [L|L]; [left; congruence|right; left; exact L].
+  - right; right. unfold SC in *. rewrite T, O. exact H1.
+Qed.
+
+Lemma pim_idle_segs (s s' : vsock) u0 :
+  IBE s -> is_recovering (v_recovery s) = false ->
+  process_all_incoming_messages cci s = SOk s' u0 -> v_segs s' = v_segs s.
+Proof.
+  intros [Hi Hc] Hr H. rewrite paim_eq in H. rewrite Hi in H. cbn [app recv_loop] in H.
+  rewrite Hi, Hc in H. cbn [sbind fst] in H. unfold paim_rest in H.
+  cbn [on_ack_result_default ar_acked_segments ar_newly_sacked_segments Z.ltb Z.compare orb sbind] in H.
+  unfold is_recovering in Hr.
+  destruct (rv_phase (v_recovery (set_inbox_waker s true))) eqn:Ep.
+  - inversion H; subst. reflexivity.
+  - inversion H; subst. reflexivity.
+  - cbn [v_recovery set_inbox_waker] in Ep. rewrite Ep in Hr. discriminate.
+Qed.
+
+(* ---- segmentation appends ---- *)
+Lemma segment_loop_app : forall fuel nagle ss segs rm rwr ss' segs' rm',
+  segment_loop fuel nagle ss segs rm rwr = Some (ss', segs', rm') ->
+  exists new, ss_segs segs' = ss_segs segs ++ new /\ ss_snd_una segs' = ss_snd_una segs.
+Proof.
+  induction fuel as [|b fuel IH]; intros nagle ss segs rm rwr ss' segs' rm'; cbn [segment_loop].
+  - intro H; injection H as _ <- _. exists []. rewrite app_nil_r. auto.
+  - destruct (_ && _); [|intro H; injection H as _ <- _; exists []; rewrite app_nil_r; auto].
+    destruct (next_segment_size ss) as [[ss1 sz]|]; [|discriminate].
+    destruct (nagle && _ && _); [intro H; injection H as _ <- _; exists []; rewrite app_nil_r; auto|].
+    destruct (mss ss1 <? _).
+    + intro H; injection H as _ <- _. eexists. split; reflexivity.
+    + intro H. destruct (IH _ _ _ _ _ _ _ _ H) as (new & E1 & E2). rewrite E1, E2.
+      unfold enqueue, Segments.set_segs. cbn [ss_segs ss_snd_una]. rewrite <- app_assoc. eexists. split; reflexivity.
+Qed.
+
 Section Ghost.
 Variables (ls0 u : Z).
 Hypothesis Hls0 : 0 <= ls0 < M16.
@@ -476,5 +580,296 @@ Proof.
     destruct Hn as [[R X]|[R X]]; [left; split; [congruence|right; exact X]|right; split; [exact R|right; exact X]].
 Qed.
 
+(* ------------------------------------------------------------------ the other functions *)
+Lemma XW_app wl k (s s' : vsock) new :
+  dout s' = dout s -> ss_segs (v_segs s') = ss_segs (v_segs s) ++ new ->
+  ss_snd_una (v_segs s') = ss_snd_una (v_segs s) -> v_cc s' = v_cc s ->
+  v_last_remote_window s' = v_last_remote_window s -> v_last_sent_seq_nr s' = v_last_sent_seq_nr s ->
+  XW wl k s -> XW wl k s'.
+Proof.
+  intros E1 E2 E3 E4 E5 E6 (idxs & c & Hc & H1 & H2 & H3). exists idxs, c.
+  split; [exact Hc|]. split; [unfold seqs_of, una in *; rewrite E1, E3; exact H1|].
+  split.
+  { unfold sgs in *. rewrite E2, app_length. eapply Forall_impl; [|exact H2]. intros; cbn in *; lia. }
+  intros Eu Fi. assert (Eu' : una s = u) by (unfold una in *; congruence).
+  destruct (H3 Eu' Fi) as (A & B0 & C0).
+  split; [exact A|]. split; [unfold sgs in *; rewrite E2; eapply Forall_impl; [|exact B0]; intros i; apply und_at_app|].
+  assert (Tr : forall m, und_at (sgs s) m -> FLp (sgs s') (S m) = FLp (sgs s) (S m) /\ FLp (sgs s') m = FLp (sgs s) m).
+  { intros m Hm. apply und_at_lt in Hm. unfold sgs in *. rewrite E2. split; apply FLp_app; lia. }
+  destruct idxs as [|i1 r].
+  - intro W. unfold LS0, una in *. rewrite E6, E3. apply C0. exact W.
+  - destruct C0 as (C1 & C2 & C3).
+    assert (Hi1 : und_at (sgs s) i1) by (inversion B0; assumption).
+    assert (HiL : und_at (sgs s) (last (i1 :: r) i1)).
+    { rewrite Forall_forall in B0. apply B0. destruct r as [|x xs]; [left; reflexivity|].
+      assert (Hne : i1 :: x :: xs <> []) by discriminate. destruct (exists_last Hne) as (l' & z & El').
+      rewrite El', last_app_cons. cbn [last]. apply in_or_app. right. left. reflexivity. }
+    destruct (Tr _ Hi1) as [_ T1]. destruct (Tr _ HiL) as [T2 _].
+    unfold dby, Wn in *. rewrite E1, E4, E5, E6, T1, T2. auto.
+Qed.
+
+Lemma split_XW now r0 wl k (s : vsock) :
+  B now s -> J r0 false now s -> WB wl k s ->
+  stk (fun _ s' => WB wl k s') s (split_tx_queue_into_segments cci s).
+Proof.
+  intros HB HJ HW.
+  assert (Hne : timer_expired (v_t_retransmit s) (v_now s) = false).
+  { destruct HB as (_ & Hn & _). rewrite Hn.
+    destruct (timer_expired (v_t_retransmit s) now) eqn:E; [|reflexivity].
+    assert (Ee : texp s now = true) by exact E. destruct (J_A_of_expired _ _ _ _ HJ Ee) as (_ & _ & X). discriminate. }
+  unfold split_tx_queue_into_segments. cbv zeta.
+  destruct (_ =? 0).
+  { cbn [stk]. destruct HW as [HW|HW]; [left; exact HW|right]. eapply XW_keep; [| | | | |exact HW]; reflexivity. }
+  match goal with |- stk _ _ (if is_remote_fin_or_later (v_state ?x) then _ else _) => set (sx := x) in * end.
+  assert (F : v_out sx = v_out s /\ v_segs sx = v_segs s /\ v_cc sx = v_cc s /\
+              v_last_remote_window sx = v_last_remote_window s /\ v_last_sent_seq_nr sx = v_last_sent_seq_nr s /\
+              v_recovery sx = v_recovery s /\ v_t_retransmit sx = v_t_retransmit s /\ v_now sx = v_now s).
+  { subst sx. destruct (_ && _); [|repeat split]. destruct (grow _ _) as [tx1 g]. destruct g; [|repeat split].
+    destruct (wake_writer tx1) as [tx2 w]. unfold add_wakes. repeat split. }
+  clearbody sx. destruct F as (F1 & F2 & F3 & F4 & F5 & F6 & F7 & F8).
+  assert (HWx : WB wl k sx).
+  { destruct HW as [HW|HW]; [left; unfold RECb in *; rewrite F6; exact HW|right].
+    eapply XW_keep; [| | | | |exact HW]; auto. apply dout_eq; exact F1. }
+  destruct (is_remote_fin_or_later _); [exact HWx|].
+  rewrite F7, F8, Hne.
+  destruct (pop_expired_mtu_probe (v_segs sx) false _) as [segs1 pe] eqn:Ep.
+  assert (Hpe : segs1 = v_segs sx /\ pe <> PeExpired 0 0 /\ forall a b, pe <> PeExpired a b).
+  { unfold pop_expired_mtu_probe in Ep. destruct (last_and_init _) as [[init g]|].
+    - destruct (sg_delivered g); [injection Ep as <- <-; repeat split; discriminate|].
+      cbn [andb] in Ep. destruct (sg_probe g); injection Ep as <- <-; repeat split; discriminate.
+    - injection Ep as <- <-. repeat split; discriminate. }
+  destruct Hpe as (-> & _ & Hpe).
+  assert (Hcont : forall (tl : Z),
+    stk (fun _ s' => WB wl k s') s
+      (if tl <? ss_len_bytes (v_segs sx) then SErr sx (ErrBug BugInBufferComputations)
+       else match segment_loop (ring (v_tx sx)) (o_nagle (v_opts sx)) (v_ss sx) (v_segs sx)
+                    (tl - ss_len_bytes (v_segs sx)) (v_last_remote_window sx) with
+            | Some (ss', segs', remaining) =>
+                SOk (set_unsegmented (VSockRec.set_segs (set_ss sx ss') segs') remaining) tt
+            | None => SPanic
+            end)).
+  { intros tl. destruct (tl <? ss_len_bytes (v_segs sx)); [exact I|].
+    destruct (segment_loop _ _ _ _ _ _) as [[[ss' segs'] rem]|] eqn:El; [|exact I].
+    cbn [stk]. destruct (segment_loop_app _ _ _ _ _ _ _ _ _ El) as (new & N1 & N2).
+    destruct HWx as [HWx|HWx]; [left; exact HWx|right].
+    eapply (XW_app wl k sx _ new); [| | | | | |exact HWx]; vsimpl_goal; auto. }
+  destruct pe.
+  - exfalso. eapply Hpe. reflexivity.
+  - cbn [stk]. destruct HWx as [HWx|HWx]; [left; exact HWx|right].
+    eapply XW_keep; [| | | | |exact HWx]; reflexivity.
+  - apply Hcont.
+Qed.
+
+Lemma maybe_send_fin_XWf k (s : vsock) : WB false k s -> stk (fun _ s' => WB false k s') s (maybe_send_fin s).
+Proof.
+  intro HW. pose proof (maybe_send_fin_spec s) as H.
+  destruct (maybe_send_fin s) as [s' [|]|s' e|]; cbn [stk]; auto.
+  - destruct H as (seq & _ & _ & Hf & Ho & Hsg & _).
+    unfold sd_frame in Hf. destruct Hf as (F1 & F2 & F3 & F4 & _).
+    destruct HW as [HW|HW]; [left; unfold RECb in *; rewrite F4; exact HW|right].
+    eapply XW_keep; [| | | | |exact HW]; auto; [|discriminate].
+    eapply dout_cons_ctrl; [exact Ho|]. apply is_data_ctrl. cbn [hdr_with ch_type]. discriminate.
+  - pose proof (sd_unchanged_SQ s s' H) as HS.
+    destruct HW as [HW|HW]; [left|right; eapply SQ_XW; eauto].
+    destruct HS as (_&_&_&_&_&_&_&_&A9&_). unfold RECb in *. rewrite A9. exact HW.
+Qed.
+
+Lemma SQ_WB wl k (s s' : vsock) : SQ s s' -> WB wl k s -> WB wl k s'.
+Proof.
+  intros HS [HW|HW]; [left|right; eapply SQ_XW; eauto].
+  destruct HS as (_&_&_&_&_&_&_&_&A9&_). unfold RECb in *. rewrite A9. exact HW.
+Qed.
+
+Lemma WB_weaken k s : WB true k s -> WB false k s.
+Proof. intros [H|H]; [left; exact H|right; apply XW_weaken; exact H]. Qed.
+
+Lemma WB_mono wl k k' s : (k <= k')%nat -> WB wl k s -> WB wl k' s.
+Proof. intros Hk [H|H]; [left; exact H|right; eapply XW_mono; eauto]. Qed.
+
+Lemma XW_first wl k (s : vsock) :
+  dout s = [] -> (wl = true -> LS0 s) -> XW wl k s.
+Proof.
+  intros Hd Hl. exists [], 0%nat. split; [lia|]. split; [unfold seqs_of; rewrite Hd; reflexivity|].
+  split; [constructor|]. intros _ _. split; [exact I|]. split; [constructor|exact Hl].
+Qed.
+
+(* ------------------------------------------------------------------ the walk *)
+Section WalkW.
+Variables (now r0 : Z).
+Hypothesis H0 : 0 <= r0.
+
+Let G : vsock -> Prop := GG now r0 false.
+Let PA (k : nat) (s : vsock) : Prop :=
+  G s /\ (SC s \/ (dout s = [] /\ v_last_sent_seq_nr s = ls0) \/ (IBE s /\ WB true k s)).
+Let PB (k : nat) (s : vsock) : Prop :=
+  G s /\ (SC s \/ (WB true k s /\ (v_transport_pending s = true \/ IBE s))).
+Let PC (k : nat) (s : vsock) : Prop := G s /\ (SC s \/ WB false k s).
+
+Lemma stk_Gw {A} (s : vsock) (m : step A) : stRk KJ s m -> stRk spR s m -> G s -> stW G m.
+Proof.
+  intros HK HS HG. destruct m as [s' a|s' e|]; cbn [stRk stW] in *; auto. eapply GG_step; eauto.
+Qed.
+
+(* a function that leaves the sender and the inbox alone *)
+Lemma PA_SQ k (s s' : vsock) : SQ s s' -> qb s s' ->
+  (SC s \/ (dout s = [] /\ v_last_sent_seq_nr s = ls0) \/ (IBE s /\ WB true k s)) ->
+  (SC s' \/ (dout s' = [] /\ v_last_sent_seq_nr s' = ls0) \/ (IBE s' /\ WB true k s')).
+Proof.
+  intros HS HQ [H|[[H1 H2]|[H1 H2]]]; [left; eapply qb_SC; eauto| |].
+  - right; left. destruct HS as (A1&_&_&_&A5&_). split; congruence.
+  - right; right. split; [eapply qb_IBE; eauto|eapply SQ_WB; eauto].
+Qed.
+
+Lemma PB_SQ wl k (s s' : vsock) : SQ s s' -> qb s s' ->
+  (SC s \/ (WB wl k s /\ (v_transport_pending s = true \/ IBE s))) ->
+  (SC s' \/ (WB wl k s' /\ (v_transport_pending s' = true \/ IBE s'))).
+Proof.
+  intros HS HQ [H|[H1 H2]]; [left; eapply qb_SC; eauto|right].
+  split; [eapply SQ_WB; eauto|]. destruct H2 as [H2|H2]; [left; eapply qb_tp; eauto|right; eapply qb_IBE; eauto].
+Qed.
+
+Lemma PC_SQ k (s s' : vsock) : SQ s s' -> qb s s' -> (SC s \/ WB false k s) -> (SC s' \/ WB false k s').
+Proof. intros HS HQ [H|H]; [left; eapply qb_SC; eauto|right; eapply SQ_WB; eauto]. Qed.
+
+Lemma stW_PA_SQ k {A} (s : vsock) (m : step A) : stk SQ s m -> stR qb s m ->
+  (SC s \/ (dout s = [] /\ v_last_sent_seq_nr s = ls0) \/ (IBE s /\ WB true k s)) ->
+  stW (fun s' => SC s' \/ (dout s' = [] /\ v_last_sent_seq_nr s' = ls0) \/ (IBE s' /\ WB true k s')) m.
+Proof. destruct m; cbn [stk stR stW]; auto. intros. eapply PA_SQ; eauto. Qed.
+
+Lemma stW_PC_SQ k {A} (s : vsock) (m : step A) : stk SQ s m -> stR qb s m ->
+  (SC s \/ WB false k s) -> stW (fun s' => SC s' \/ WB false k s') m.
+Proof. destruct m; cbn [stk stR stW]; auto. intros. eapply PC_SQ; eauto. Qed.
+
+Theorem poll_loop_xw : forall fuel (s s' : vsock),
+  PA 0 s -> poll_loop cci fuel s = (s', PollPending) -> exists k', (k' < 0 + fuel)%nat /\ PC k' s'.
+Proof.
+  intros fuel s s' HA H.
+  apply (poll_loop_W cci PA PA PB PB PB PC PC PC) with (s := s); try assumption.
+  - (* poll_start *)
+    intros k a [HG HW]. split.
+    + eapply GG_step; [exact H0|apply poll_start_KJ|apply SQ_spR, poll_start_SQ|exact HG].
+    + destruct HW as [HW|[HW|[HW1 HW2]]]; [left; exact HW|right; left; exact HW|right; right].
+      split; [exact HW1|eapply SQ_WB; [apply poll_start_SQ|exact HW2]].
+  - intros k a [HG HW] _. apply stW_and.
+    + apply (stk_Gw a); [apply maybe_send_syn_ack_KJ|apply stk_SQ_spR, maybe_send_syn_ack_SQ|exact HG].
+    + apply (stW_PA_SQ k a); [apply maybe_send_syn_ack_SQ|apply maybe_send_syn_ack_qb|exact HW].
+  - intros k a [HG HW] _. apply stW_and.
+    + apply (stk_Gw a); [apply send_ack_KJ|apply stk_SQ_spR, send_ack_SQ|exact HG].
+    + apply (stW_PA_SQ k a); [apply send_ack_SQ|apply send_ack_qb|exact HW].
+  - (* process_all_incoming_messages *)
+    intros k a [HG HW] _. apply stW_and.
+    + apply (stk_Gw a); [apply process_all_KJ|apply process_all_spR|exact HG].
+    + pose proof (process_all_incoming_messages_pimr cci a) as P'.
+      pose proof (process_all_incoming_messages_post cci a) as Post.
+      pose proof (pim_idle cci a) as Idle.
+      pose proof (pim_idle_segs a) as IdleS.
+      pose proof (process_all_ls a) as Ls.
+      pose proof (process_all_KQ cci now a) as KQ'.
+      destruct (process_all_incoming_messages cci a) as [b x|b e|]; cbn [stW stR stk] in *; auto.
+      specialize (Post b x eq_refl). specialize (Idle b x). specialize (IdleS b x).
+      destruct HW as [HW|[[HW1 HW2]|[HW1 HW2]]]; [left; apply P'; exact HW| |].
+      * destruct Post as [Po|Po]; [left; exact Po|].
+        destruct Ls as [Ls|[Ls|Ls]]; [| |left; exact Ls].
+        -- right. split; [|destruct Po as [Po|Po]; [left; exact Po|right; exact Po]].
+           right. apply XW_first.
+           ++ destruct HG as (HB & _). destruct (KQ' HB) as [_ (D1 & _)]. congruence.
+           ++ intros _. left. congruence.
+        -- right. split; [|destruct Po as [Po|Po]; [left; exact Po|right; exact Po]].
+           right. apply XW_first.
+           ++ destruct HG as (HB & _). destruct (KQ' HB) as [_ (D1 & _)]. congruence.
+           ++ intros _. right. exact Ls.
+      * destruct (Idle HW1 eq_refl) as (I1 & I2 & I3 & I4 & I5 & I6 & I7 & I8 & I9 & I10 & I11).
+        right. split; [|right; split; assumption].
+        destruct HW2 as [HW2|HW2]; [left; unfold RECb in *; rewrite I9; exact HW2|].
+        destruct (RECb a) eqn:Er; [left; unfold RECb in *; rewrite I9; exact Er|right].
+        eapply XW_keep; [apply dout_eq; exact I1|apply IdleS; auto|exact I4|exact I3|intros _; exact I6|exact HW2].
+  - (* flush *)
+    intros k a rx1 fb w [HG HW] _ _. split.
+    + eapply GG_step; [exact H0|apply rx_flush_KJ|apply SQ_spR, add_wakes_rx_SQ|exact HG].
+    + eapply PB_SQ; [apply add_wakes_rx_SQ|apply rx_flush_qb|exact HW].
+  - (* split *)
+    intros k a [HG HW] [T0 _]. apply stW_and.
+    + apply (stk_Gw a); [apply split_KJ|apply split_spR|exact HG].
+    + destruct HG as (HB & HJ & _).
+      pose proof (split_XW now r0 true k a HB HJ) as HX'.
+      pose proof (split_tx_queue_into_segments_qb cci a) as HQ.
+      destruct (split_tx_queue_into_segments cci a) as [b x|b e|]; cbn [stW stR stk] in *; auto.
+      destruct HW as [HW|[HW1 HW2]]; [left; eapply qb_SC; eauto|right].
+      split; [apply HX'; exact HW1|]. destruct HW2 as [HW2|HW2]; [congruence|right; eapply qb_IBE; eauto].
+  - (* send_tx_queue *)
+    intros k a [HG HW] [T0 R0].
+    pose proof (stk_Gw a _ (send_tx_queue_KJ cci a) (send_tx_queue_spR cci a) HG) as HG'.
+    destruct HG as (HB & HJ & HP).
+    pose proof (send_tx_queue_XW now r0 k a HB HJ HP R0) as HX'.
+    pose proof (send_tx_queue_txf cci a) as X'.
+    pose proof (send_tx_queue_frame cci a) as F'.
+    destruct (send_tx_queue cci a) as [b x|b e|]; cbn [stW stR stk step_frame] in *; auto.
+    destruct X' as (X1 & X2 & X3 & X4 & X5 & X6 & X7 & X8). destruct F' as (F1 & _).
+    destruct HW as [HW|[HW1 HW2]].
+    + assert (Sb : SC b) by (unfold SC in *; rewrite X7, F1; exact HW).
+      split; [|split]; intros; (split; [exact HG'|]); left; exact Sb.
+    + destruct HW2 as [HW2|HW2]; [congruence|].
+      assert (Ib : IBE b) by (unfold IBE in *; rewrite X5, X6; exact HW2).
+      destruct (HX' HW1) as [[R1 W1]|[R1 W1]].
+      * split; [intro; congruence|]. split; intros; (split; [exact HG'|]); right.
+        -- apply WB_weaken. exact W1.
+        -- apply WB_weaken. exact W1.
+      * split; [intros _; split; [exact HG'|]; right; right; split; [exact Ib|exact W1]|].
+        split; [intro; congruence|]. intros [_ R]. congruence.
+  - (* transition_to_fin_wait_1 *)
+    intros k a [HG HW] _. split.
+    + eapply GG_step; [exact H0|apply transition_to_fin_wait_1_KJ|apply SQ_spR, transition_to_fin_wait_1_SQ|exact HG].
+    + eapply PC_SQ; [apply transition_to_fin_wait_1_SQ|apply transition_to_fin_wait_1_qb|exact HW].
+  - (* maybe_send_fin *)
+    intros k a [HG HW] _. apply stW_and.
+    + apply (stk_Gw a); [apply maybe_send_fin_KJ|apply maybe_send_fin_spR|exact HG].
+    + pose proof (maybe_send_fin_qb a) as HQ.
+      pose proof (maybe_send_fin_XWf k a) as HX'.
+      destruct (maybe_send_fin a) as [b x|b e|]; cbn [stW stR stk] in *; auto.
+      destruct HW as [HW|HW]; [left; eapply qb_SC; eauto|right; apply HX'; exact HW].
+  - (* maybe_send_ack *)
+    intros k a [HG HW] _. apply stW_and.
+    + apply (stk_Gw a); [apply maybe_send_ack_KJ|apply stk_SQ_spR, maybe_send_ack_SQ|exact HG].
+    + apply (stW_PC_SQ k a); [apply maybe_send_ack_SQ|apply maybe_send_ack_qb|exact HW].
+  - (* early returns *)
+    intros k a [HG HW] _. split; [exact HG|].
+    destruct HW as [HW|[[HW1 HW2]|[HW1 HW2]]]; [left; exact HW| |right; apply WB_weaken; exact HW2].
+    right; right. apply XW_first; [exact HW1|discriminate].
+  - intros k a [HG HW] _. split; [exact HG|].
+    destruct HW as [HW|[HW1 HW2]]; [left; exact HW|right; apply WB_weaken; exact HW1].
+  - intros k a [HG HW] _. split; [exact HG|exact HW].
+  - intros k a [HG HW] _. split; [exact HG|exact HW].
+  - (* the timer tail *)
+    intros k a [HG HW] _ _. split.
+    + eapply GG_step; [exact H0|apply poll_tail_KJ|apply SQ_spR, poll_tail_SQ|exact HG].
+    + destruct (poll_tail_fields a) as (_ & _ & _ & St & _ & _ & _ & _ & _ & _ & _ & _ & _ & _ & Op & _).
+      destruct HW as [HW|HW]; [left; unfold SC in *; rewrite St, Op; exact HW|right].
+      eapply SQ_WB; [apply poll_tail_SQ|exact HW].
+Qed.
+
+End WalkW.
+
 End Ghost.
+(* what a Pending poll leaves behind when the retransmission timer had not expired at its start *)
+Theorem poll_pending_xw (s : vsock) sc s' u :
+  ti s -> sp s -> timer_expired (v_t_retransmit s) (v_env_now s) = false ->
+  0 <= v_last_sent_seq_nr s < M16 -> 0 <= u < M16 ->
+  0 <= seq_sub (wadd16 (v_last_sent_seq_nr s) 1) u <= 1024 ->
+  poll cci (VSockRec.set_sends s sc) = (s', PollPending) ->
+  sp s' /\ J (v_rto_retransmissions s) false (v_env_now s) s' /\
+  (SC s' \/ exists k', (k' < 64)%nat /\ WB (v_last_sent_seq_nr s) u false k' s').
+Proof.
+  intros Hti Hsp He Hls Hu Hd H. rewrite poll_unfold in H. apply poll_loop_start in H.
+  assert (Hr0 : 0 <= v_rto_retransmissions s) by apply Hti.
+  apply (poll_loop_xw (v_last_sent_seq_nr s) u Hls Hu Hd (v_env_now s) (v_rto_retransmissions s) Hr0) in H.
+  2:{ split; [split; [|split]|].
+    + split; [exact Hti|]. split; reflexivity.
+    + apply JA; [reflexivity|reflexivity|]. unfold texp. cbn. rewrite He. auto.
+    + exact Hsp.
+    + right; left. split; reflexivity. }
+  destruct H as (k' & Hk & (HB & HJ & HP) & HW).
+  - split; [exact HP|]. split; [exact HJ|].
+    destruct HW as [HW|HW]; [left; exact HW|right]. exists k'. split; [lia|exact HW].
+Qed.
+
 End WithCC.
